@@ -150,4 +150,639 @@ theorem rep_view (q : Q) (v : List Entry) (h : Rep q v) : q.view = v := by
       simp only [List.length_append, List.length_map, canonNL, List.append_assoc] at h2 ⊢
       exact h2
 
+/-! ### posting -/
+
+theorem insPos_le (lead : List Lead) (reqOff : Int) : insPos lead reqOff ≤ lead.length := by
+  unfold insPos; omega
+
+private theorem insPos_rev (P : Lead → Bool) (r : List Lead) :
+    (∀ l ∈ r.reverse.drop (r.length - (r.takeWhile P).length), P l = true) ∧
+    (∀ l, (r.reverse.take (r.length - (r.takeWhile P).length)).getLast? = some l → P l = false) := by
+  induction r with
+  | nil => simp
+  | cons x xs ih =>
+    by_cases hx : P x = true
+    · rw [List.takeWhile_cons_of_pos hx]
+      simp only [List.length_cons, List.reverse_cons]
+      have h1 : xs.length + 1 - ((List.takeWhile P xs).length + 1) = xs.length - (List.takeWhile P xs).length := by omega
+      rw [h1]
+      have hle : xs.length - (List.takeWhile P xs).length ≤ xs.reverse.length := by simp
+      constructor
+      · intro l hlm
+        rw [List.drop_append_of_le_length hle] at hlm
+        rcases List.mem_append.mp hlm with h | h
+        · exact ih.1 l h
+        · simp at h; subst h; exact hx
+      · intro l hlast
+        rw [List.take_append_of_le_length hle] at hlast
+        exact ih.2 l hlast
+    · rw [List.takeWhile_cons_of_neg hx]
+      simp only [List.length_cons, List.reverse_cons, List.length_nil, Nat.sub_zero]
+      constructor
+      · intro l hlm
+        have : (xs.reverse ++ [x]).drop (xs.length + 1) = [] := by
+          apply List.drop_eq_nil_of_le; simp
+        simp [this] at hlm
+      · intro l hlast
+        have : (xs.reverse ++ [x]).take (xs.length + 1) = xs.reverse ++ [x] := by
+          apply List.take_of_length_le; simp
+        rw [this] at hlast
+        simp at hlast
+        subst hlast
+        simpa using hx
+
+/-- where the sorted insertion puts the new request: everything behind it has a larger
+    `varp->begin`, the entry in front of it (if any) does not -/
+theorem insPos_spec (lead : List Lead) (reqOff : Int) :
+    (∀ l ∈ lead.drop (insPos lead reqOff), l.c.varBegin > reqOff) ∧
+    (∀ l, (lead.take (insPos lead reqOff)).getLast? = some l → l.c.varBegin ≤ reqOff) := by
+  have h := insPos_rev (fun l => decide (l.c.varBegin > reqOff)) lead.reverse
+  simp only [List.reverse_reverse, List.length_reverse] at h
+  unfold insPos
+  constructor
+  · intro l hl; simpa using h.1 l hl
+  · intro l hl; have := h.2 l hl; simpa using this
+
+/-- the entry a post adds -/
+def newEntry (id varBegin abuf maxRec : Int) (tag : Nat) (subs : List Sub) : Entry :=
+  ⟨{ id := id, varBegin := varBegin, abufIndex := abuf, maxRec := maxRec, tag := tag }, subs⟩
+
+/-- position at which `Q.post` inserts -/
+def postPos (q : Q) (sorted : Bool) (reqOff : Int) : Nat :=
+  if sorted then insPos q.lead reqOff else q.numLead
+
+def postId (q : Q) (first : Int) : Int := if q.numLead = 0 then first else q.maxId + 2
+
+/-- the body of `Q.post` once the insertion index and the id are fixed -/
+def postAt (q : Q) (p : Nat) (id varBegin abuf : Int) (tag : Nat) (subs : List Sub) (maxRec : Int) : Q :=
+  let pos := if p < q.numLead then
+               (match q.lead[p]? with | some l => l.nonleadOff | none => q.numReqs)
+             else q.numReqs
+  { lead := q.lead.take p ++ [{ c := { id := id, varBegin := varBegin, abufIndex := abuf, maxRec := maxRec, tag := tag },
+                                nonleadOff := pos, nonleadNum := subs.length }] ++
+            (q.lead.drop p).map (fun l => { l with nonleadOff := l.nonleadOff + subs.length }),
+    nonlead := q.nonlead.take pos ++ subs.map (fun s => (⟨p, s⟩ : NonLead)) ++
+               (q.nonlead.drop pos).map (fun r => { r with leadOff := r.leadOff + 1 }),
+    numLead := q.numLead + 1, numReqs := q.numReqs + subs.length, maxId := id }
+
+theorem post_eq (q : Q) (first : Int) (sorted : Bool) (varBegin reqOff abuf : Int) (tag : Nat)
+    (subs : List Sub) (maxRec : Int) :
+    q.post first sorted varBegin reqOff abuf tag subs maxRec
+      = (postAt q (postPos q sorted reqOff) (postId q first) varBegin abuf tag subs maxRec, postId q first) := rfl
+
+theorem postPos_le (q : Q) (v : List Entry) (h : Rep q v) (sorted : Bool) (reqOff : Int) :
+    postPos q sorted reqOff ≤ v.length := by
+  unfold postPos
+  have h2 : q.lead.length = v.length := by rw [h.lead]; simp
+  split
+  · have := insPos_le q.lead reqOff; omega
+  · rw [h.numLead]; exact Nat.le_refl _
+
+theorem postAt_rep (q : Q) (v : List Entry) (h : Rep q v) (p : Nat) (hp : p ≤ v.length)
+    (id varBegin abuf : Int) (tag : Nat) (subs : List Sub) (maxRec : Int) :
+    Rep (postAt q p id varBegin abuf tag subs maxRec)
+        (v.take p ++ [newEntry id varBegin abuf maxRec tag subs] ++ v.drop p) := by
+  have hpos : (if p < q.numLead then
+               (match q.lead[p]? with | some l => l.nonleadOff | none => q.numReqs)
+             else q.numReqs) = total (v.take p) := by
+    rw [h.numLead, h.numReqs, h.lead]
+    split
+    · rename_i hlt
+      have hd : canonLeads 0 v = canonLeads 0 (v.take p) ++ canonLeads (0 + total (v.take p)) (v.drop p) := by
+        rw [← canonLeads_append, List.take_append_drop]
+      rw [hd, List.getElem?_append_right (by simp; omega)]
+      simp only [canonLeads_length, List.length_take, Nat.min_eq_left hp, Nat.sub_self, Nat.zero_add]
+      cases hdv : v.drop p with
+      | nil =>
+        have : (v.drop p).length = 0 := by rw [hdv]; rfl
+        simp at this; omega
+      | cons e es => simp [canonLeads]
+    · rename_i hge
+      have : p = v.length := by omega
+      rw [this, List.take_length]
+  unfold postAt
+  simp only [hpos]
+  constructor
+  · simp only
+    rw [h.lead, canonLeads_take, canonLeads_drop, canonLeads_bump, canonLeads_append, canonLeads_append]
+    simp [canonLeads, newEntry, total_append, Nat.add_assoc]
+  · simp only
+    rw [h.nonlead, canonNL_take, canonNL_drop, canonNL_bump, canonNL_append, canonNL_append]
+    simp [canonNL, newEntry, List.length_take, Nat.min_eq_left hp, Nat.add_assoc]
+  · simp [h.numLead, List.length_take, Nat.min_eq_left hp]; omega
+  · simp only
+    rw [h.numReqs, total_append, total_append]
+    have := total_append (v.take p) (v.drop p)
+    rw [List.take_append_drop] at this
+    simp [newEntry]; omega
+
+/-! ### cancel -/
+
+/-- remove the first pending request with this id (ids equal to NC_REQ_NULL never match) -/
+def eraseId (rid : Int) : List Entry → List Entry
+  | [] => []
+  | e :: es => if e.c.id = NC_REQ_NULL ∨ e.c.id ≠ rid then e :: eraseId rid es else es
+
+theorem findLead_canon (rid : Int) (v : List Entry) : ∀ (j0 o : Nat),
+    (findLead rid j0 (canonLeads o v) = none ∧ eraseId rid v = v) ∨
+    (∃ a e d, v = a ++ e :: d ∧
+      findLead rid j0 (canonLeads o v) = some (j0 + a.length, ⟨e.c, o + total a, e.subs.length⟩) ∧
+      eraseId rid v = a ++ d ∧ e.c.id = rid ∧ e.c.id ≠ NC_REQ_NULL ∧ (∀ x ∈ a, x.c.id = NC_REQ_NULL ∨ x.c.id ≠ rid)) := by
+  induction v with
+  | nil => intro j0 o; left; simp [findLead, canonLeads, eraseId]
+  | cons e es ih =>
+    intro j0 o
+    by_cases hc : e.c.id = NC_REQ_NULL ∨ e.c.id ≠ rid
+    · rcases ih (j0 + 1) (o + e.subs.length) with ⟨h1, h2⟩ | ⟨a, e', d, hv, hf, he, hid, hnn, ha⟩
+      · left
+        simp only [findLead, canonLeads, eraseId, hc, if_true, h1, h2, and_self]
+      · right
+        refine ⟨e :: a, e', d, by simp [hv], ?_, ?_, hid, hnn, ?_⟩
+        · simp only [findLead, canonLeads, hc, if_true, hf, List.length_cons, total_cons]
+          congr 2
+          · omega
+          · congr 1; omega
+        · simp only [eraseId, hc, if_true, he, List.cons_append]
+        · intro x hx
+          rcases List.mem_cons.mp hx with rfl | hx
+          · exact hc
+          · exact ha x hx
+    · right
+      refine ⟨[], e, es, rfl, ?_, ?_, ?_, ?_, by simp⟩
+      · simp [findLead, canonLeads, hc]
+      · simp [eraseId, hc]
+      · have := not_or.mp hc; exact Classical.not_not.mp this.2
+      · exact (not_or.mp hc).1
+
+theorem drop_mid {α : Type} (A B : List α) (x : α) (n : Nat) (h : A.length = n) :
+    (A ++ x :: B).drop (n + 1) = B := by
+  subst h
+  induction A with
+  | nil => simp
+  | cons y ys ih => simpa using ih
+
+theorem remove_rep (q : Q) (a d : List Entry) (e : Entry) (h : Rep q (a ++ e :: d)) :
+    Rep (q.remove a.length ⟨e.c, total a, e.subs.length⟩) (a ++ d) := by
+  unfold Q.remove
+  constructor
+  · simp only
+    rw [h.lead, canonLeads_append, canonLeads_append]
+    simp only [canonLeads, Nat.zero_add]
+    rw [List.take_left' (by simp), drop_mid _ _ _ _ (by simp), canonLeads_unbump]
+  · simp only
+    rw [h.nonlead, canonNL_append, canonNL_append]
+    simp only [canonNL, Nat.zero_add]
+    rw [List.take_left' (by simp)]
+    rw [show canonNL 0 a ++ (e.subs.map (fun s => (⟨a.length, s⟩ : NonLead)) ++ canonNL (a.length + 1) d)
+          = (canonNL 0 a ++ e.subs.map (fun s => (⟨a.length, s⟩ : NonLead))) ++ canonNL (a.length + 1) d by simp]
+    rw [List.drop_left' (by simp), canonNL_unbump]
+  · simp [h.numLead]
+  · simp only
+    rw [h.numReqs, total_append, total_append]
+    simp; omega
+
+/-- the pending sets after the id loop of ncmpio_cancel -/
+def cancelView (ids : List Int) (vP vG : List Entry) : List Entry × List Entry :=
+  ids.foldl (fun acc rid =>
+    if rid = NC_REQ_NULL then acc
+    else if rid % 2 = 1 then (acc.1, eraseId rid acc.2)
+    else (eraseId rid acc.1, acc.2)) (vP, vG)
+
+theorem cancelLoop_rep (ids : List Int) : ∀ (i : Nat) (r : CancelRes) (vP vG : List Entry),
+    Rep r.nc.put vP → Rep r.nc.get vG →
+    Rep (cancelLoop i ids r).nc.put (cancelView ids vP vG).1 ∧
+    Rep (cancelLoop i ids r).nc.get (cancelView ids vP vG).2 ∧
+    (cancelLoop i ids r).nc.numrecs = r.nc.numrecs := by
+  induction ids with
+  | nil => intro i r vP vG hP hG; exact ⟨hP, hG, rfl⟩
+  | cons rid rest ih =>
+    intro i r vP vG hP hG
+    unfold cancelLoop cancelView
+    simp only [List.foldl_cons]
+    by_cases hn : rid = NC_REQ_NULL
+    · simp only [hn, if_true]
+      exact ih _ _ vP vG hP hG
+    · simp only [hn, if_false]
+      by_cases hodd : rid % 2 = 1
+      · simp only [hodd, if_true]
+        rcases findLead_canon rid vG 0 0 with ⟨h1, h2⟩ | ⟨a, e, d, hv, hf, he, _, _, _⟩
+        · rw [← hG.lead] at h1
+          simp only [h1, h2]
+          exact ih _ _ vP vG hP hG
+        · rw [← hG.lead] at hf
+          simp only [hf, he, Nat.zero_add]
+          have := ih (i + 1) { nc := { r.nc with get := r.nc.get.remove a.length ⟨e.c, total a, e.subs.length⟩ },
+                               ids := r.ids ++ [NC_REQ_NULL], st := r.st.map (fun s => setAt s i NC_NOERR), err := r.err,
+                               cancelled := r.cancelled ++ [⟨e.c, total a, e.subs.length⟩] } vP (a ++ d) hP
+                      (remove_rep _ a d e (hv ▸ hG))
+          exact this
+      · simp only [hodd, if_false]
+        rcases findLead_canon rid vP 0 0 with ⟨h1, h2⟩ | ⟨a, e, d, hv, hf, he, _, _, _⟩
+        · rw [← hP.lead] at h1
+          simp only [h1, h2]
+          exact ih _ _ vP vG hP hG
+        · rw [← hP.lead] at hf
+          simp only [hf, he, Nat.zero_add]
+          have := ih (i + 1) { nc := { r.nc with put := r.nc.put.remove a.length ⟨e.c, total a, e.subs.length⟩ },
+                               ids := r.ids ++ [NC_REQ_NULL], st := r.st.map (fun s => setAt s i NC_NOERR), err := r.err,
+                               cancelled := r.cancelled ++ [⟨e.c, total a, e.subs.length⟩] } (a ++ d) vG
+                      (remove_rep _ a d e (hv ▸ hP)) hG
+          exact this
+
+theorem freeIfEmpty_rep (q : Q) (v : List Entry) (h : Rep q v) : Rep q.freeIfEmpty v := by
+  unfold Q.freeIfEmpty
+  split
+  · rename_i h0
+    have : v = [] := by
+      have := h.numLead; rw [h0] at this
+      exact List.eq_nil_of_length_eq_zero this.symm
+    subst this
+    exact ⟨rfl, rfl, h.numLead, h.numReqs⟩
+  · exact h
+
+theorem clear_rep (q : Q) : Rep q.clear [] := ⟨rfl, rfl, rfl, rfl⟩
+
+/-! ### wait: compaction of the non-lead list and the post-I/O clean-up -/
+
+def kept (v : List Entry) : List Entry := v.filter (fun e => !e.c.toFree)
+def flagged (v : List Entry) : List Entry := v.filter (fun e => e.c.toFree)
+
+/-- lead list after loop 3 of extract_reqs: surviving leads get the offsets of the compacted
+    array, flagged leads keep their stale offsets -/
+def reoff : Nat → Nat → List Entry → List Lead
+  | _, _, [] => []
+  | k, o, e :: es =>
+    if e.c.toFree then ⟨e.c, o, e.subs.length⟩ :: reoff k (o + e.subs.length) es
+    else ⟨e.c, k, e.subs.length⟩ :: reoff (k + e.subs.length) (o + e.subs.length) es
+
+/-- compacted non-lead list: slices of the surviving leads, still carrying their OLD lead index -/
+def keptNL : Nat → List Entry → List NonLead
+  | _, [] => []
+  | i, e :: es =>
+    if e.c.toFree then keptNL (i + 1) es
+    else e.subs.map (fun s => (⟨i, s⟩ : NonLead)) ++ keptNL (i + 1) es
+
+def flaggedLeads : Nat → List Entry → List Lead
+  | _, [] => []
+  | o, e :: es =>
+    if e.c.toFree then ⟨e.c, o, e.subs.length⟩ :: flaggedLeads (o + e.subs.length) es
+    else flaggedLeads (o + e.subs.length) es
+
+@[simp] theorem keptNL_length (i : Nat) (v : List Entry) : (keptNL i v).length = total (kept v) := by
+  induction v generalizing i with
+  | nil => rfl
+  | cons e es ih =>
+    by_cases h : e.c.toFree = true
+    · simp [keptNL, kept, h, List.filter_cons]; simpa [kept] using ih (i + 1)
+    · simp [keptNL, kept, h, List.filter_cons]; simpa [kept] using ih (i + 1)
+
+theorem total_kept_flagged (v : List Entry) : total (kept v) + total (flagged v) = total v := by
+  induction v with
+  | nil => rfl
+  | cons e es ih =>
+    by_cases h : e.c.toFree = true
+    · simp [kept, flagged, h, List.filter_cons] at ih ⊢; omega
+    · simp [kept, flagged, h, List.filter_cons] at ih ⊢; omega
+
+theorem length_kept_flagged (v : List Entry) : (kept v).length + (flagged v).length = v.length := by
+  induction v with
+  | nil => rfl
+  | cons e es ih =>
+    by_cases h : e.c.toFree = true
+    · simp [kept, flagged, h, List.filter_cons] at ih ⊢; omega
+    · simp [kept, flagged, h, List.filter_cons] at ih ⊢; omega
+
+theorem compactGo_canon (v : List Entry) : ∀ (pre post : List NonLead) (i k : Nat),
+    compactGo (pre ++ canonNL i v ++ post) k (canonLeads pre.length v) = (reoff k pre.length v, keptNL i v) := by
+  induction v with
+  | nil => intro pre post i k; rfl
+  | cons e es ih =>
+    intro pre post i k
+    have hassoc : pre ++ canonNL i (e :: es) ++ post
+        = (pre ++ e.subs.map (fun s => (⟨i, s⟩ : NonLead))) ++ canonNL (i + 1) es ++ post := by
+      simp [canonNL]
+    have hlen : (pre ++ e.subs.map (fun s => (⟨i, s⟩ : NonLead))).length = pre.length + e.subs.length := by simp
+    by_cases h : e.c.toFree = true
+    · simp only [canonLeads, compactGo, h, if_true, reoff, keptNL]
+      rw [hassoc, ← hlen, ih]
+    · have h' : e.c.toFree = false := by simpa using h
+      simp only [canonLeads, compactGo, h', reoff, keptNL, Bool.false_eq_true, if_false]
+      rw [slice_canon pre post i e es, hassoc, ← hlen, ih]
+
+theorem setLeadOff_mid (D T : List NonLead) (subs : List Sub) (i j : Nat) :
+    setLeadOff (D ++ subs.map (fun s => (⟨i, s⟩ : NonLead)) ++ T) D.length subs.length j
+      = D ++ subs.map (fun s => (⟨j, s⟩ : NonLead)) ++ T := by
+  unfold setLeadOff
+  have h1 : (D ++ subs.map (fun s => (⟨i, s⟩ : NonLead)) ++ T).take D.length = D := by
+    rw [List.append_assoc]; exact List.take_left' rfl
+  have h2 : (D ++ subs.map (fun s => (⟨i, s⟩ : NonLead)) ++ T).drop D.length
+      = subs.map (fun s => (⟨i, s⟩ : NonLead)) ++ T := by
+    rw [List.append_assoc]; exact List.drop_left' rfl
+  have h3 : (D ++ subs.map (fun s => (⟨i, s⟩ : NonLead)) ++ T).drop (D.length + subs.length) = T :=
+    List.drop_left' (by simp)
+  rw [h1, h2, h3, List.take_left' (by simp)]
+  simp [List.map_map, Function.comp_def]
+
+theorem cleanupGo_canon (v : List Entry) : ∀ (D : List NonLead) (i j o : Nat), j ≤ i →
+    cleanupGo i j (reoff D.length o v) (D ++ keptNL i v)
+      = (canonLeads D.length (kept v), D ++ canonNL j (kept v), flaggedLeads o v) := by
+  induction v with
+  | nil => intro D i j o _; simp [cleanupGo, reoff, keptNL, kept, canonLeads, canonNL, flaggedLeads]
+  | cons e es ih =>
+    intro D i j o hji
+    by_cases h : e.c.toFree = true
+    · simp only [reoff, cleanupGo, h, if_true, keptNL, kept, List.filter_cons, flaggedLeads, Bool.not_true,
+                 Bool.false_eq_true, if_false]
+      have := ih D (i + 1) j (o + e.subs.length) (by omega)
+      simp only [kept] at this
+      rw [this]
+    · have h' : e.c.toFree = false := by simpa using h
+      simp only [reoff, cleanupGo, h', keptNL, kept, List.filter_cons, flaggedLeads, Bool.not_false, if_true,
+                 Bool.false_eq_true, if_false, canonLeads, canonNL]
+      have hnl : (if j < i then setLeadOff (D ++ (e.subs.map (fun s => (⟨i, s⟩ : NonLead)) ++ keptNL (i + 1) es)) D.length e.subs.length j
+                  else D ++ (e.subs.map (fun s => (⟨i, s⟩ : NonLead)) ++ keptNL (i + 1) es))
+          = (D ++ e.subs.map (fun s => (⟨j, s⟩ : NonLead))) ++ keptNL (i + 1) es := by
+        split
+        · rw [← List.append_assoc, setLeadOff_mid]
+        · have : j = i := by omega
+          subst this; simp
+      rw [hnl]
+      have hlen : (D ++ e.subs.map (fun s => (⟨j, s⟩ : NonLead))).length = D.length + e.subs.length := by simp
+      have := ih (D ++ e.subs.map (fun s => (⟨j, s⟩ : NonLead))) (i + 1) (j + 1) (o + e.subs.length) (by omega)
+      rw [hlen] at this
+      simp only [kept] at this
+      rw [this]
+      simp
+
+theorem flagged_nil_of_total (v : List Entry) (hne : ∀ e ∈ v, e.subs ≠ []) (h : total (flagged v) = 0) :
+    flagged v = [] := by
+  cases hf : flagged v with
+  | nil => rfl
+  | cons e es =>
+    have hm : e ∈ flagged v := by rw [hf]; exact List.mem_cons_self
+    have hv : e ∈ v := (List.mem_filter.mp hm).1
+    have := hne e hv
+    rw [hf] at h
+    simp at h
+    exact absurd h.1 this
+
+theorem kept_eq_self_of_flagged_nil (v : List Entry) (h : flagged v = []) : kept v = v := by
+  unfold kept flagged at *
+  rw [List.filter_eq_self]
+  intro e he
+  have : e ∉ v.filter (fun e => e.c.toFree) := by rw [h]; simp
+  simp [List.mem_filter, he] at this
+  simp [this]
+
+/-- loop 3 of extract_reqs followed by the post-I/O loop of req_commit on one queue whose lead
+    list is the canonical form of `m` (flags set on the extracted requests): the result is the
+    canonical form of the requests that stay, the completed leads are the flagged ones -/
+theorem compact_cleanup_rep (q : Q) (m : List Entry) (h : Rep q m) (hne : ∀ e ∈ m, e.subs ≠ []) :
+    Rep ((q.compact (total (flagged m))).cleanup (flagged m).length).1 (kept m) ∧
+    ((q.compact (total (flagged m))).cleanup (flagged m).length).2 = flaggedLeads 0 m := by
+  by_cases hn : total (flagged m) = 0
+  · have hf := flagged_nil_of_total m hne hn
+    have hk := kept_eq_self_of_flagged_nil m hf
+    have hfl : flaggedLeads 0 m = [] := by
+      suffices H : ∀ (o : Nat) (w : List Entry), flagged w = [] → flaggedLeads o w = [] from H 0 m hf
+      intro o w
+      induction w generalizing o with
+      | nil => intro _; rfl
+      | cons e es ih =>
+        intro hw
+        by_cases he : e.c.toFree = true
+        · simp [flagged, List.filter_cons, he] at hw
+        · have he' : e.c.toFree = false := by simpa using he
+          simp only [flaggedLeads, he', Bool.false_eq_true, if_false]
+          apply ih
+          simpa [flagged, List.filter_cons, he'] using hw
+    simp [Q.compact, Q.cleanup, hn, hf, hk, hfl, h]
+  · have hcnt : q.numReqs - total (flagged m) = total (kept m) := by
+      have := total_kept_flagged m; rw [h.numReqs]; omega
+    have hfpos : (flagged m).length ≠ 0 := by
+      intro h0
+      have : flagged m = [] := List.eq_nil_of_length_eq_zero h0
+      rw [this] at hn; simp at hn
+    have hcg := compactGo_canon m [] [] 0 0
+    simp only [List.nil_append, List.append_nil, List.length_nil] at hcg
+    have hcl := cleanupGo_canon m [] 0 0 0 (Nat.le_refl 0)
+    simp only [List.nil_append, List.length_nil] at hcl
+    unfold Q.compact Q.cleanup
+    simp only [hn, hfpos, if_false]
+    rw [h.lead, h.nonlead, hcg]
+    simp only [hcnt]
+    have harr : (keptNL 0 m ++ List.drop (keptNL 0 m).length (canonNL 0 m)).take (total (kept m)) = keptNL 0 m := by
+      rw [List.take_left' (by simp)]
+    rw [harr]
+    have hk0 : (if total (kept m) = 0 then [] else keptNL 0 m) = keptNL 0 m := by
+      split
+      · rename_i h0
+        have : (keptNL 0 m).length = 0 := by simp [h0]
+        exact (List.eq_nil_of_length_eq_zero this).symm
+      · rfl
+    simp only [hk0, hcl]
+    constructor
+    · constructor
+      · rfl
+      · simp only [canonLeads_length]
+        split
+        · rename_i h0
+          have : kept m = [] := List.eq_nil_of_length_eq_zero h0
+          rw [this]; rfl
+        · rfl
+      · simp
+      · rfl
+    · trivial
+
+/-! ### wait: marking (loop 1 of the subset path) on entries -/
+
+def flagE (s : Option Nat) (e : Entry) : Entry := { e with c := { e.c with toFree := true, status := s } }
+
+def newStatus (slot : Option Nat) (e : Entry) : Option Nat :=
+  match slot with | some i => some i | none => e.c.status
+
+def markE (slot : Option Nat) (rid : Int) : List Entry → Option (List Entry × Nat)
+  | [] => none
+  | e :: es =>
+    if e.c.toFree then (markE slot rid es).map (fun r => (e :: r.1, r.2))
+    else if e.c.id = rid then some (flagE (newStatus slot e) e :: es, e.subs.length)
+    else (markE slot rid es).map (fun r => (e :: r.1, r.2))
+
+theorem markLead_canon (slot : Option Nat) (rid : Int) (v : List Entry) : ∀ (o : Nat),
+    markLead slot rid (canonLeads o v) = (markE slot rid v).map (fun r => (canonLeads o r.1, r.2)) := by
+  induction v with
+  | nil => intro o; rfl
+  | cons e es ih =>
+    intro o
+    simp only [canonLeads, markLead, markE]
+    by_cases h1 : e.c.toFree = true
+    · simp only [h1, if_true, ih, Option.map_map]
+      cases markE slot rid es <;> simp [canonLeads]
+    · have h1' : e.c.toFree = false := by simpa using h1
+      simp only [h1', Bool.false_eq_true, if_false]
+      by_cases h2 : e.c.id = rid
+      · simp only [h2, if_true, Option.map_some, canonLeads, flagE, newStatus]
+        cases slot <;> rfl
+      · simp only [h2, if_false, ih, Option.map_map]
+        cases markE slot rid es <;> simp [canonLeads]
+
+/-- which requests a mark map flags: `mk id = some s` means "flagged, status slot s" -/
+def applyMark (mk : Int → Option (Option Nat)) (e : Entry) : Entry :=
+  match mk e.c.id with | some s => flagE s e | none => e
+
+def Clean (v : List Entry) : Prop := ∀ e ∈ v, e.c.toFree = false
+def Distinct (v : List Entry) : Prop := List.Pairwise (fun a b => a.c.id ≠ b.c.id) v
+
+theorem applyMark_subs (mk : Int → Option (Option Nat)) (e : Entry) : (applyMark mk e).subs = e.subs := by
+  unfold applyMark; cases mk e.c.id <;> rfl
+theorem applyMark_id (mk : Int → Option (Option Nat)) (e : Entry) : (applyMark mk e).c.id = e.c.id := by
+  unfold applyMark; cases mk e.c.id <;> rfl
+
+theorem canonNL_congr (v w : List Entry) (h : v.map (fun e => e.subs) = w.map (fun e => e.subs)) :
+    ∀ i, canonNL i v = canonNL i w := by
+  induction v generalizing w with
+  | nil => intro i; cases w with | nil => rfl | cons _ _ => simp at h
+  | cons e es ih =>
+    intro i
+    cases w with
+    | nil => simp at h
+    | cons f fs =>
+      simp only [List.map_cons, List.cons.injEq] at h
+      simp only [canonNL, h.1, ih fs h.2]
+
+theorem total_congr (v w : List Entry) (h : v.map (fun e => e.subs) = w.map (fun e => e.subs)) : total v = total w := by
+  have := canonNL_congr v w h 0
+  rw [← canonNL_length 0 v, ← canonNL_length 0 w, this]
+
+theorem map_applyMark_subs (mk : Int → Option (Option Nat)) (v : List Entry) :
+    (v.map (applyMark mk)).map (fun e => e.subs) = v.map (fun e => e.subs) := by
+  simp [List.map_map, Function.comp_def, applyMark_subs]
+
+/-- marking one id in a list that is "clean original + mark map" -/
+theorem markE_map (slot : Option Nat) (rid : Int) (mk : Int → Option (Option Nat)) (v : List Entry)
+    (hc : Clean v) (hd : Distinct v) :
+    markE slot rid (v.map (applyMark mk)) =
+      match v.find? (fun e => decide (e.c.id = rid)) with
+      | some e => if mk rid = none then
+                    some (v.map (applyMark (fun x => if x = rid then some (newStatus slot e) else mk x)), e.subs.length)
+                  else none
+      | none => none := by
+  induction v with
+  | nil => rfl
+  | cons e es ih =>
+    have hc' : Clean es := fun x hx => hc x (List.mem_cons_of_mem _ hx)
+    have hd' := List.pairwise_cons.mp hd
+    have ihh := ih hc' hd'.2
+    have hce : e.c.toFree = false := hc e List.mem_cons_self
+    simp only [List.map_cons, List.find?_cons]
+    by_cases hid : e.c.id = rid
+    · have hnone : es.find? (fun x => decide (x.c.id = rid)) = none := by
+        rw [List.find?_eq_none]
+        intro x hx; have := hd'.1 x hx; simp; intro h; exact this (hid.trans h.symm)
+      simp only [hid, decide_true]
+      cases hm : mk rid with
+      | none =>
+        have : applyMark mk e = e := by unfold applyMark; rw [hid, hm]
+        rw [this]
+        simp only [markE, hce, Bool.false_eq_true, if_false, hid, if_true]
+        congr 2
+        have h1 : applyMark (fun x => if x = rid then some (newStatus slot e) else mk x) e = flagE (newStatus slot e) e := by
+          unfold applyMark; simp [hid]
+        have h2 : es.map (applyMark (fun x => if x = rid then some (newStatus slot e) else mk x)) = es.map (applyMark mk) := by
+          apply List.map_congr_left
+          intro x hx
+          have : x.c.id ≠ rid := fun h => hd'.1 x hx (hid.trans h.symm)
+          unfold applyMark; simp [this]
+        rw [h1, h2]
+      | some s =>
+        have : applyMark mk e = flagE s e := by unfold applyMark; rw [hid, hm]
+        rw [this]
+        simp only [markE, flagE, if_true, ihh, hnone, Option.map_none]
+        simp
+    · simp only [hid, decide_false]
+      have hhead : ∀ mk' : Int → Option (Option Nat), (∀ x, x ≠ rid → mk' x = mk x) → applyMark mk' e = applyMark mk e := by
+        intro mk' h; unfold applyMark; rw [h _ hid]
+      cases hm : mk e.c.id with
+      | none =>
+        have : applyMark mk e = e := by unfold applyMark; rw [hm]
+        rw [this]
+        simp only [markE, hce, Bool.false_eq_true, if_false, hid, ihh]
+        cases hf : es.find? (fun x => decide (x.c.id = rid)) with
+        | none => simp
+        | some x =>
+          simp only
+          split
+          · simp only [Option.map_some, List.map_cons]
+            rw [hhead _ (fun y hy => by simp [hy]), this]
+          · simp
+      | some s =>
+        have : applyMark mk e = flagE s e := by unfold applyMark; rw [hm]
+        rw [this]
+        simp only [markE, flagE, if_true, ihh]
+        cases hf : es.find? (fun x => decide (x.c.id = rid)) with
+        | none => simp
+        | some x =>
+          simp only
+          split
+          · simp only [Option.map_some, List.map_cons]
+            rw [hhead _ (fun y hy => by simp [hy]), this]
+            rfl
+          · simp
+
+/-- marking flags exactly one more lead and adds its slice length -/
+theorem markE_counts (slot : Option Nat) (rid : Int) (m : List Entry) :
+    ∀ m' n, markE slot rid m = some (m', n) →
+      (flagged m').length = (flagged m).length + 1 ∧ total (flagged m') = total (flagged m) + n := by
+  induction m with
+  | nil => intro m' n h; simp [markE] at h
+  | cons e es ih =>
+    intro m' n h
+    simp only [markE] at h
+    by_cases h1 : e.c.toFree = true
+    · simp only [h1, if_true] at h
+      cases hr : markE slot rid es with
+      | none => rw [hr] at h; simp at h
+      | some r =>
+        rw [hr] at h
+        simp only [Option.map_some, Option.some.injEq, Prod.mk.injEq] at h
+        have := ih r.1 r.2 (by rw [hr])
+        rw [← h.1, ← h.2]
+        simp [flagged, List.filter_cons, h1] at this ⊢
+        omega
+    · have h1' : e.c.toFree = false := by simpa using h1
+      simp only [h1', Bool.false_eq_true, if_false] at h
+      by_cases h2 : e.c.id = rid
+      · simp only [h2, if_true, Option.some.injEq, Prod.mk.injEq] at h
+        rw [← h.1, ← h.2]
+        simp [flagged, List.filter_cons, h1', flagE]
+        omega
+      · simp only [h2, if_false] at h
+        cases hr : markE slot rid es with
+        | none => rw [hr] at h; simp at h
+        | some r =>
+          rw [hr] at h
+          simp only [Option.map_some, Option.some.injEq, Prod.mk.injEq] at h
+          have := ih r.1 r.2 (by rw [hr])
+          rw [← h.1, ← h.2]
+          simp [flagged, List.filter_cons, h1'] at this ⊢
+          omega
+
+theorem kept_map_applyMark (mk : Int → Option (Option Nat)) (v : List Entry) (hc : Clean v) :
+    kept (v.map (applyMark mk)) = v.filter (fun e => (mk e.c.id).isNone) := by
+  induction v with
+  | nil => rfl
+  | cons e es ih =>
+    have hc' : Clean es := fun x hx => hc x (List.mem_cons_of_mem _ hx)
+    have hce : e.c.toFree = false := hc e List.mem_cons_self
+    have ih' := ih hc'
+    simp only [kept] at ih' ⊢
+    simp only [List.map_cons, List.filter_cons]
+    cases hm : mk e.c.id with
+    | none =>
+      have : applyMark mk e = e := by unfold applyMark; rw [hm]
+      simp [this, hce, ih']
+    | some s =>
+      have : applyMark mk e = flagE s e := by unfold applyMark; rw [hm]
+      simp [this, flagE, ih']
+
 end PnVerif.ReqQueue
